@@ -77,6 +77,8 @@ def main(pid, argv):
     ck.evaluations = len(data)
     nf = 0
     for (k, x, exp, wd), il, ml in zip(cases, impl, model):
+        if il == "SKIPPED":
+            continue
         ck.count("kind:" + k)
         ck.count("impl:" + C.cls(il))
         ck.distinct.add(x)
@@ -91,6 +93,8 @@ def main(pid, argv):
             ck.tie_broken("parse result differs (docs included)", V.hexs(x)[:400], il[:300], ml[:300])
     nm_bad = 0
     for x, il, ml in zip(names, impl[len(cases):], model[len(cases):]):
+        if il == "SKIPPED":
+            continue
         ck.count("kind:interface-name")
         ck.count("name:" + C.cls(il))
         if il != ml:
